@@ -336,6 +336,7 @@ pub fn run_suites(rep: &Reporter, suites: &[Suite], deadline_s: f64, node_cap: u
         }
         let mut ex = Explorer::new(s.host, p, &s.bounds);
         ex.node_cap = node_cap;
+        ex.deadline = Some(&deadline);
         ex.run();
         let found: Vec<_> = ex.found.into_iter().map(|f| (f.failure, f.history)).collect();
         (ex.stats, found, ex.sample)
